@@ -83,7 +83,8 @@ def props_of_error(built, specs_by_key, e):
         if sp['file'] == 'all.rs' and 0 < sp['line'] <= len(built.origin):
             o = built.origin[sp['line'] - 1]
             if o and o[0] == 'contract' and (len(o) < 4 or o[3] is None) and 'assert' in e.get('msg', ''):
-                return fprops, '%s#proof-step(%s:%s)' % (fn, o[1], o[2])
+                hp = list(o[4]) if len(o) > 4 and o[4] else fprops
+                return hp, '%s#proof-step(%s:%s)' % (fn, o[1], o[2])
     return fprops, '%s#safety' % fn
 
 
